@@ -87,4 +87,12 @@ example : ∀ e ∈ pairs [] (syncInsert 0), e ∈ nesting := by decide
 /-- and the pre-fix conditional-invalidation callback (store lock first, then the queue mutex) does not -/
 example : ¬ (∀ e ∈ pairs [] (legacyCondCb 0), e ∈ nesting) := by decide
 
+/-- **No DashMap shard guard is alive where the current source acquires a lock, touches the DashMap again, calls a function that
+    does, or awaits.**  The lock model treats every DashMap operation as an atomic step (a shard lock is taken and released inside
+    it); this is the obligation that makes that sound: a `Ref` / `RefMut` / iterator kept alive across a queue-mutex acquisition
+    would add a lock of rank ABOVE the queue mutex that is taken BEFORE it (the inverse of every insert / eviction / invalidation
+    path, which touch the DashMap under the queue mutex), and one kept across an `.await` blocks the shard while the call is
+    suspended (C20).  The list is extracted by `checklib/static_scopes.py` from the current source on every run. -/
+theorem shard_guards_never_held : shardHeld = [] := by decide
+
 end Cachelito.C17s
